@@ -568,13 +568,14 @@ def evaluate_cli(case):
         argv = [flag, path] if case.get("order", 0) == 0 else [path, flag]
         if binary:
             argv.append("--binary")
-        out, err = io.StringIO(), io.StringIO()
+        enc = case.get("enc")
+        out, err = (io.TextIOWrapper(io.BytesIO(), encoding=enc, errors="strict", write_through=True) if enc else io.StringIO()), io.StringIO()
         try:
             with contextlib.redirect_stdout(out), contextlib.redirect_stderr(err):
                 rc = cli.main(argv)
         except BaseException as e:  # noqa
             return [("cli-equal", "cli.main(%s) raised %s: %s" % (argv[:1] + argv[2:], type(e).__name__, e))], "cli-raises"
-        text = out.getvalue()
+        text = out.buffer.getvalue().decode(enc) if enc else out.getvalue()
         shown = [a if a != path else os.path.basename(path) for a in argv]
         if rc != 0:
             return [("cli-equal", "cli.main(%s) returned %r, stderr %r" % (shown, rc, err.getvalue()[:300]))], "rc"
@@ -733,7 +734,8 @@ def embeds(small, big):
                 return False
         return True
     if "mode" in small:
-        if small["mode"] != big["mode"] or (small["binary"] and not big["binary"]) or (small.get("order") and not big.get("order")):
+        if small["mode"] != big["mode"] or (small["binary"] and not big["binary"]) or (small.get("order") and not big.get("order")) \
+                or (small.get("enc") and small.get("enc") != big.get("enc")):
             return False
         if "fixture" in small or "fixture" in big:
             return small.get("fixture") == big.get("fixture")
@@ -793,6 +795,8 @@ def cli_cases(tier, seed):
             for binary in (False, True):
                 for order in (0, 1):
                     out.append(("cli", dict(s, mode=mode, binary=binary, order=order)))
+            # the same JSON must arrive whatever the encoding of stdout is (a pipe under LANG=C, a cp1252 console ...)
+            out.append(("cli", dict(s, mode=mode, binary=False, order=0, enc="ascii")))
     return out
 
 
